@@ -348,14 +348,20 @@ def execute(spec, ctx):
             ctx.count("overlap_error_left_to_C07")
             return
         ctx.rng.reset(script)
-        second = findcheck.call_find(ctx, res1, search, atol, hints, with_quats=False)
+        second_full = findcheck.call_find(ctx, res1, search, atol, hints, with_quats=True)
+        second = second_full[0]
         # an occurrence may legitimately re-appear only with the help of inserted atoms ("unless the replacement itself contains
         # it"): any remaining occurrence made solely of atoms that were there before is a violation
         # (an atom is "there before" if the same element sat at exactly that place: a substituted atom takes the place, not the identity)
         orig = set((str(e),) + tuple(float(x) for x in p) for e, p in zip(structure.elements, np.array(structure.positions, float).reshape(-1, 3)))
         rp = [(str(e),) + tuple(float(x) for x in p) for e, p in zip(res1.elements, np.array(res1.positions, float).reshape(-1, 3))]
-        for tup in second:
+        for tup, X in zip(second, second_full[1]):
             if all(rp[int(i)] in orig for i in tup):
+                if npat > 1 and "real" not in spec and geom.kabsch(P, np.asarray(X, float))[2].max() > atol / (2.0 * K):
+                    # a borderline site: whether it counts as an occurrence may differ between the search inside the replacement
+                    # (pattern moved to the origin, structure before the deletion) and this one - no verdict
+                    ctx.count("gone_borderline_occurrence_not_judged")
+                    continue
                 raise Violation("c08:occurrences-remain-after-replacing-all", "an occurrence of the original pattern on original atoms %s is still found after replacing all %d by a pattern without %s"
                                 % ([int(i) for i in tup], k1, spec["gone_element"]), site="replace")
         if second:
